@@ -26,3 +26,330 @@ package http2
 //@ ensures complete: len(b) > 0 && forall(i, 0, len(b), b[i] >= '0' && b[i] <= '9') &&
 //@ |   forall(k, 1, len(b) + 1, spec.decp(b, k) <= 9223372036854775807) ==> r1 == nil
 //@ ensures value: r1 == nil ==> r0 == spec.decp(b, len(b))
+
+// ---------------------------------------------------------------------------
+// Shared abbreviations
+// ---------------------------------------------------------------------------
+
+//@ macro hasflag(fl, m) = ((fl % 256) & m) == m
+//@ macro be24(b, o) = b[o]*65536 + b[o+1]*256 + b[o+2]
+//@ macro be32(b, o) = b[o]*16777216 + b[o+1]*65536 + b[o+2]*256 + b[o+3]
+//@ macro be31(b, o) = (b[o] % 128)*16777216 + b[o+1]*65536 + b[o+2]*256 + b[o+3]
+//@ macro isbe32(b, o, n) = b[o] == (n >> 24) % 256 && b[o+1] == (n >> 16) % 256 && b[o+2] == (n >> 8) % 256 && b[o+3] == n % 256
+
+//@ sealed Frame
+//@ pool frameHeaderPool: *FrameHeader
+//@ pool headerPool: *HeaderField
+//@ pool hpackPool: *HPACK
+//@ pool bytePool: *[]byte
+//@ pool streamPool: *Stream
+
+// ---------------------------------------------------------------------------
+// frameHeader.go
+// ---------------------------------------------------------------------------
+
+//@ func (*FrameHeader).parseValues
+//@ props C05 C16
+//@ requires recv: f != nil
+//@ requires hdr: len(header) >= 9
+//@ modifies f.length, f.kind, f.flags, f.stream
+//@ ensures length: f.length == be24(header, 0)
+//@ ensures kind: f.kind == int8(header[3])
+//@ ensures flags: f.flags == int8(header[4])
+//@ ensures stream: f.stream == be31(header, 5)
+
+//@ func (*FrameHeader).parseHeader
+//@ props C05
+//@ requires recv: f != nil
+//@ requires hdr: len(header) >= 9
+//@ modifies contents(header)
+//@ ensures length: 0 <= f.length && f.length < 16777216 ==> be24(header, 0) == f.length
+//@ ensures kind: header[3] == f.kind % 256
+//@ ensures flags: header[4] == f.flags % 256
+//@ ensures stream: be32(header, 5) == f.stream
+//@ ensures rest: forall(i, 9, len(header), header[i] == old(header)[i])
+
+//@ func (*FrameHeader).checkLen
+//@ props C05 C16 C18
+//@ requires recv: f != nil
+//@ pure
+//@ ensures ok: r0 == nil <==> (f.maxLen == 0 || f.length <= f.maxLen)
+//@ ensures code: r0 != nil ==> iserror(r0) && errcode(r0) == FrameSizeError
+
+//@ func (*FrameHeader).setPayload
+//@ props C05
+//@ requires recv: f != nil
+//@ modifies f.payload, capacity(f.payload)
+//@ ensures copy: f.payload == old(payload)
+
+// ---------------------------------------------------------------------------
+// Frame payloads: RFC 7540 section 6. Deserialize contracts describe the wire
+// layout directly over fr.payload / fr.flags; Serialize contracts re-read the
+// produced payload with the same layout macros, never with Deserialize.
+// ---------------------------------------------------------------------------
+
+//@ macro padok(p) = len(p) >= 1 && p[0] < len(p)
+
+//@ func (*Data).Deserialize
+//@ props C05 C01 C16
+//@ requires recv: data != nil && fr != nil
+//@ requires lenok: fr.length == len(fr.payload)
+//@ modifies data.endStream, data.b, capacity(data.b)
+//@ let padded = hasflag(fr.flags, 8)
+//@ let p = old(fr.payload)
+//@ ensures plain: !padded ==> r0 == nil && data.b == p
+//@ ensures cut: padded && padok(p) ==> r0 == nil && data.b == p[1 : len(p) - p[0]]
+//@ ensures badpad: padded && !padok(p) ==> r0 != nil
+//@ ensures es: r0 == nil ==> data.endStream == hasflag(fr.flags, 1)
+
+//@ func (*Data).Serialize
+//@ props C05 C01
+//@ requires recv: data != nil && fr != nil
+//@ modifies fr.flags, fr.payload, capacity(fr.payload), data.b, capacity(data.b)
+//@ ensures es: data.endStream ==> hasflag(fr.flags, 1)
+//@ ensures noes: !data.endStream ==> hasflag(fr.flags, 1) == hasflag(old(fr.flags), 1)
+//@ ensures plain: !data.hasPadding ==> fr.payload == old(data.b) && hasflag(fr.flags, 8) == hasflag(old(fr.flags), 8)
+//@ ensures padded: data.hasPadding ==> hasflag(fr.flags, 8) && padok(fr.payload) &&
+//@ |   len(fr.payload) == len(old(data.b)) + 1 + fr.payload[0] &&
+//@ |   fr.payload[1 : 1 + len(old(data.b))] == old(data.b) &&
+//@ |   forall(i, 1 + len(old(data.b)), len(fr.payload), fr.payload[i] == 0)
+
+//@ func (*Continuation).Deserialize
+//@ props C05 C01 C16
+//@ requires recv: c != nil && fr != nil
+//@ modifies c.endHeaders, c.rawHeaders, capacity(c.rawHeaders)
+//@ ensures ok: r0 == nil && c.rawHeaders == old(fr.payload) && c.endHeaders == hasflag(fr.flags, 4)
+
+//@ func (*Continuation).Serialize
+//@ props C05
+//@ requires recv: c != nil && fr != nil
+//@ modifies fr.flags, fr.payload, capacity(fr.payload)
+//@ ensures payload: fr.payload == old(c.rawHeaders)
+//@ ensures eh: c.endHeaders ==> hasflag(fr.flags, 4)
+//@ ensures noeh: !c.endHeaders ==> fr.flags == old(fr.flags)
+
+//@ func (*Priority).Deserialize
+//@ props C05 C08 C16
+//@ requires recv: pry != nil && fr != nil
+//@ modifies pry.stream, pry.weight
+//@ ensures size: err == nil <==> len(fr.payload) == 5
+//@ ensures code: err != nil ==> iserror(err) && errcode(err) == FrameSizeError
+//@ ensures fields: err == nil ==> pry.stream == be31(fr.payload, 0) && pry.weight == fr.payload[4]
+
+//@ func (*Priority).Serialize
+//@ props C05
+//@ requires recv: pry != nil && fr != nil
+//@ modifies fr.payload, capacity(fr.payload)
+//@ ensures layout: len(fr.payload) == 5 && be32(fr.payload, 0) == pry.stream && fr.payload[4] == pry.weight
+
+//@ func (*RstStream).Deserialize
+//@ props C05 C08 C16
+//@ requires recv: rst != nil && fr != nil
+//@ modifies rst.code
+//@ ensures size: r0 == nil <==> len(fr.payload) == 4
+//@ ensures code: r0 != nil ==> iserror(r0) && errcode(r0) == FrameSizeError && errframe(r0) == FrameGoAway
+//@ ensures fields: r0 == nil ==> rst.code == be32(fr.payload, 0)
+
+//@ func (*RstStream).Serialize
+//@ props C05
+//@ requires recv: rst != nil && fr != nil
+//@ modifies fr.payload, capacity(fr.payload), fr.length
+//@ ensures layout: len(fr.payload) == 4 && be32(fr.payload, 0) == rst.code
+
+//@ func (*WindowUpdate).Deserialize
+//@ props C05 C08 C16
+//@ requires recv: wu != nil && fr != nil
+//@ modifies wu.increment
+//@ ensures size: r0 == nil <==> len(fr.payload) == 4
+//@ ensures code: r0 != nil ==> iserror(r0) && errcode(r0) == FrameSizeError && errframe(r0) == FrameGoAway
+//@ ensures fields: r0 == nil ==> wu.increment == be31(fr.payload, 0)
+
+//@ func (*WindowUpdate).Serialize
+//@ props C05
+//@ requires recv: wu != nil && fr != nil
+//@ modifies fr.payload, capacity(fr.payload), fr.length
+//@ ensures layout: len(fr.payload) == 4 && fr.payload[0] < 128
+//@ ensures value: 0 <= wu.increment && wu.increment <= 2147483647 ==> be32(fr.payload, 0) == wu.increment
+
+//@ func (*Ping).Deserialize
+//@ props C05 C16
+//@ requires recv: p != nil && frh != nil
+//@ modifies p.ack, p.data
+//@ ensures size: r0 == nil <==> len(frh.payload) == 8
+//@ ensures code: r0 != nil ==> iserror(r0) && errcode(r0) == FrameSizeError && errframe(r0) == FrameGoAway
+//@ ensures fields: r0 == nil ==> p.ack == hasflag(frh.flags, 1) && forall(i, 0, 8, p.data[i] == old(frh.payload)[i])
+
+//@ func (*Ping).Serialize
+//@ props C05
+//@ requires recv: p != nil && fr != nil
+//@ modifies fr.flags, fr.payload, capacity(fr.payload)
+//@ ensures layout: len(fr.payload) == 8 && forall(i, 0, 8, fr.payload[i] == old(p.data)[i])
+//@ ensures ack: p.ack ==> hasflag(fr.flags, 1)
+//@ ensures noack: !p.ack ==> fr.flags == old(fr.flags)
+
+//@ func (*GoAway).Deserialize
+//@ props C05 C16
+//@ requires recv: ga != nil && fr != nil
+//@ modifies ga.stream, ga.code, ga.data, capacity(ga.data)
+//@ ensures size: err == nil <==> len(fr.payload) >= 8
+//@ ensures fields: err == nil ==> ga.stream == be31(old(fr.payload), 0) && ga.code == be32(old(fr.payload), 4)
+//@ ensures debug: err == nil && len(fr.payload) > 8 ==> ga.data == old(fr.payload)[8:]
+
+//@ func (*GoAway).Serialize
+//@ props C05 C10
+//@ requires recv: ga != nil && fr != nil
+//@ # the debug data is appended after the fixed fields have been written into fr.payload in place,
+//@ # so the two buffers must not be the same array (they belong to different pooled objects)
+//@ requires sep: !samearray(ga.data, fr.payload) || cap(fr.payload) == 0
+//@ modifies fr.payload, capacity(fr.payload)
+//@ ensures layout: len(fr.payload) == 8 + len(ga.data) && be32(fr.payload, 0) == ga.stream && be32(fr.payload, 4) == ga.code
+//@ ensures debug: fr.payload[8:] == old(ga.data)
+
+//@ macro concat(r, a, b) = len(r) == len(a) + len(b) && r[:len(a)] == a && r[len(a):] == b
+
+//@ func (*Headers).Deserialize
+//@ props C05 C01 C16
+//@ requires recv: h != nil && frh != nil
+//@ modifies h.priority, h.stream, h.weight, h.endStream, h.endHeaders, h.rawHeaders, capacity(h.rawHeaders)
+//@ let p = old(frh.payload)
+//@ let padded = hasflag(frh.flags, 8)
+//@ let prio = hasflag(frh.flags, 32)
+//@ let lo = ite(padded, 1, 0)
+//@ let hi = ite(padded, len(p) - p[0], len(p))
+//@ let ps = ite(prio, 5, 0)
+//@ ensures ok: r0 == nil <==> (!padded || padok(p)) && hi - lo >= ps
+//@ ensures frag: r0 == nil ==> concat(h.rawHeaders, old(h.rawHeaders), p[lo + ps : hi])
+//@ ensures prio: r0 == nil && prio ==> h.priority && h.stream == be31(p, lo) && h.weight == p[lo + 4]
+//@ ensures flags: r0 == nil ==> h.endStream == hasflag(frh.flags, 1) && h.endHeaders == hasflag(frh.flags, 4)
+
+//@ func (*Headers).Serialize
+//@ props C05 C01
+//@ requires recv: h != nil && frh != nil
+//@ modifies frh.flags, frh.payload, capacity(frh.payload), h.rawHeaders, capacity(h.rawHeaders)
+//@ let frag = old(h.rawHeaders)
+//@ let q = frh.payload
+//@ let o = ite(h.hasPadding, 1, 0)
+//@ let pl = ite(h.hasPadding, q[0], 0)
+//@ let ps = ite(h.priority, 5, 0)
+//@ ensures len: len(q) == o + ps + len(frag) + pl
+//@ ensures frag: !h.hasPadding ==> q[ps : ps + len(frag)] == frag
+//@ ensures fragpad: h.hasPadding && !h.priority ==> q[1 : 1 + len(frag)] == frag
+//@ ensures fragpadprio: h.hasPadding && h.priority ==> q[6 : 6 + len(frag)] == frag
+//@ ensures prio: h.priority && !h.hasPadding ==> isbe32(q, 0, h.stream % 2147483648) && q[4] == h.weight
+//@ ensures priopad: h.priority && h.hasPadding ==> isbe32(q, 1, h.stream % 2147483648) && q[5] == h.weight
+//@ ensures pad: h.hasPadding ==> forall(i, o + ps + len(frag), len(q), q[i] == 0)
+//@ ensures fes: hasflag(frh.flags, 1) == (h.endStream || hasflag(old(frh.flags), 1))
+//@ ensures feh: hasflag(frh.flags, 4) == (h.endHeaders || hasflag(old(frh.flags), 4))
+//@ ensures fpr: hasflag(frh.flags, 32) == (h.priority || hasflag(old(frh.flags), 32))
+//@ ensures fpd: hasflag(frh.flags, 8) == (h.hasPadding || hasflag(old(frh.flags), 8))
+
+//@ func (*PushPromise).Deserialize
+//@ props C05 C16
+//@ requires recv: pp != nil && fr != nil
+//@ requires lenok: fr.length == len(fr.payload)
+//@ modifies pp.stream, pp.header, capacity(pp.header), pp.ended
+//@ let p = old(fr.payload)
+//@ let padded = hasflag(fr.flags, 8)
+//@ let lo = ite(padded, 1, 0)
+//@ let hi = ite(padded, len(p) - p[0], len(p))
+//@ ensures ok: r0 == nil <==> (!padded || padok(p)) && hi - lo >= 4
+//@ ensures fields: r0 == nil ==> pp.stream == be31(p, lo) && pp.ended == hasflag(fr.flags, 4) &&
+//@ |   concat(pp.header, old(pp.header), p[lo + 4 : hi])
+
+//@ func (*PushPromise).Serialize
+//@ props C05
+//@ requires recv: pp != nil && fr != nil
+//@ requires sep: !samearray(pp.header, fr.payload) || cap(fr.payload) == 0
+//@ modifies fr.flags, fr.payload, capacity(fr.payload)
+//@ let q = fr.payload
+//@ let o = ite(pp.pad, 1, 0)
+//@ let pl = ite(pp.pad, q[0], 0)
+//@ ensures len: len(q) == o + 4 + len(pp.header) + pl
+//@ ensures id: !pp.pad ==> isbe32(q, 0, pp.stream % 2147483648)
+//@ ensures idpad: pp.pad ==> isbe32(q, 1, pp.stream % 2147483648)
+//@ ensures frag: q[o + 4 : o + 4 + len(pp.header)] == old(pp.header)
+//@ ensures pad: pp.pad ==> forall(i, o + 4 + len(pp.header), len(q), q[i] == 0)
+//@ ensures feh: hasflag(fr.flags, 4) == (pp.ended || hasflag(old(fr.flags), 4))
+//@ ensures fpd: hasflag(fr.flags, 8) == (pp.pad || hasflag(old(fr.flags), 8))
+
+// ---------------------------------------------------------------------------
+// settings.go (RFC 7540 section 6.5)
+// ---------------------------------------------------------------------------
+
+//@ macro sk(d, k) = d[6*k]*256 + d[6*k+1]
+//@ macro sv(d, k) = be32(d, 6*k+2)
+//@ macro sgood(d, k) = (sk(d,k) == 2 ==> sv(d,k) <= 1) && (sk(d,k) == 4 ==> sv(d,k) <= 2147483647) &&
+//@ |   (sk(d,k) == 5 ==> sv(d,k) >= 16384 && sv(d,k) <= 16777215)
+//@ macro slast(d, cnt, id, field, was) = forall(k, 0, cnt, sk(d,k) == id && forall(j, k+1, cnt, sk(d,j) != id) ==> field == sv(d,k)) &&
+//@ |   (forall(k, 0, cnt, sk(d,k) != id) ==> field == was)
+
+//@ func (*Settings).Read
+//@ props C18 C05 C16
+//@ requires recv: st != nil
+//@ modifies st.tableSize, st.enablePush, st.maxStreams, st.windowSize, st.frameSize, st.headerSize, st.hasWindowSize
+//@ loop 0: invariant step: i == last + 6 && last % 6 == 0 && last >= 0 && last <= n && n == len(d)
+//@ loop 0: invariant good: forall(k, 0, last/6, sgood(d, k))
+//@ loop 0: invariant tbl: slast(d, last/6, 1, st.tableSize, old(st.tableSize))
+//@ loop 0: invariant strm: slast(d, last/6, 3, st.maxStreams, old(st.maxStreams))
+//@ loop 0: invariant win: slast(d, last/6, 4, st.windowSize, old(st.windowSize))
+//@ loop 0: invariant frm: slast(d, last/6, 5, st.frameSize, old(st.frameSize))
+//@ loop 0: invariant hdr: slast(d, last/6, 6, st.headerSize, old(st.headerSize))
+//@ loop 0: invariant haswin: st.hasWindowSize == (old(st.hasWindowSize) || exists(k, 0, last/6, sk(d,k) == 4))
+//@ ensures valid: r0 == nil <==> forall(k, 0, len(d)/6, sgood(d, k))
+//@ ensures code: r0 != nil ==> iserror(r0) && errframe(r0) == FrameGoAway &&
+//@ |   exists(k, 0, len(d)/6, !sgood(d, k) && forall(j, 0, k, sgood(d, j)) &&
+//@ |     errcode(r0) == ite(sk(d,k) == 4, FlowControlError, ProtocolError))
+//@ ensures tbl: r0 == nil ==> slast(d, len(d)/6, 1, st.tableSize, old(st.tableSize))
+//@ ensures strm: r0 == nil ==> slast(d, len(d)/6, 3, st.maxStreams, old(st.maxStreams))
+//@ ensures win: r0 == nil ==> slast(d, len(d)/6, 4, st.windowSize, old(st.windowSize))
+//@ ensures frm: r0 == nil ==> slast(d, len(d)/6, 5, st.frameSize, old(st.frameSize))
+//@ ensures hdr: r0 == nil ==> slast(d, len(d)/6, 6, st.headerSize, old(st.headerSize))
+//@ ensures haswin: r0 == nil ==> st.hasWindowSize == (old(st.hasWindowSize) || exists(k, 0, len(d)/6, sk(d,k) == 4))
+
+//@ # (Encode emits at most 6 entries, so the witness is searched among the first 6)
+//@ macro sone(r, cnt, id, val) = exists(k, 0, 6, k < cnt && sk(r,k) == id && isbe32(r, 6*k+2, val)) && forall(k, 0, cnt, sk(r,k) == id ==> isbe32(r, 6*k+2, val))
+//@ macro snone(r, cnt, id) = forall(k, 0, cnt, sk(r,k) != id)
+
+//@ func (*Settings).Encode
+//@ props C18 C05
+//@ requires recv: st != nil
+//@ split st.enablePush, st.frameSize != 0, st.headerSize != 0
+//@ modifies st.rawSettings, capacity(st.rawSettings)
+//@ let r = st.rawSettings
+//@ let cnt = len(st.rawSettings) / 6
+//@ ensures shape: len(r) % 6 == 0 && cnt >= 3 && cnt <= 6
+//@ ensures ids: forall(k, 0, cnt, sk(r,k) >= 1 && sk(r,k) <= 6)
+//@ ensures tbl: sone(r, cnt, 1, st.tableSize)
+//@ ensures strm: sone(r, cnt, 3, st.maxStreams)
+//@ ensures win: sone(r, cnt, 4, st.windowSize)
+//@ ensures push: ite(st.enablePush, snone(r, cnt, 2), sone(r, cnt, 2, 0))
+//@ ensures frm: ite(st.frameSize != 0, sone(r, cnt, 5, st.frameSize), snone(r, cnt, 5))
+//@ ensures hdr: ite(st.headerSize != 0, sone(r, cnt, 6, st.headerSize), snone(r, cnt, 6))
+
+//@ func (*Settings).Deserialize
+//@ props C18 C05 C16
+//@ requires recv: st != nil && fr != nil
+//@ modifies st.ack, st.tableSize, st.enablePush, st.maxStreams, st.windowSize, st.frameSize, st.headerSize, st.hasWindowSize
+//@ let p = fr.payload
+//@ ensures size: len(p) % 6 != 0 ==> r0 != nil && iserror(r0) && errcode(r0) == FrameSizeError && errframe(r0) == FrameGoAway
+//@ ensures ackpayload: len(p) % 6 == 0 && hasflag(fr.flags, 1) && len(p) > 0 ==> r0 != nil && iserror(r0) && errcode(r0) == FrameSizeError
+//@ ensures values: len(p) % 6 == 0 && !(hasflag(fr.flags, 1) && len(p) > 0) ==> (r0 == nil <==> forall(k, 0, len(p)/6, sgood(p, k)))
+//@ ensures ack: len(p) % 6 == 0 ==> st.ack == hasflag(fr.flags, 1)
+//@ ensures tbl: r0 == nil ==> slast(p, len(p)/6, 1, st.tableSize, old(st.tableSize))
+//@ ensures win: r0 == nil ==> slast(p, len(p)/6, 4, st.windowSize, old(st.windowSize))
+//@ ensures frm: r0 == nil ==> slast(p, len(p)/6, 5, st.frameSize, old(st.frameSize))
+//@ ensures strm: r0 == nil ==> slast(p, len(p)/6, 3, st.maxStreams, old(st.maxStreams))
+
+//@ func (*Settings).Serialize
+//@ props C18 C05
+//@ requires recv: st != nil && fr != nil
+//@ modifies fr.flags, fr.payload, capacity(fr.payload), st.rawSettings, capacity(st.rawSettings)
+//@ let r = fr.payload
+//@ let cnt = len(fr.payload) / 6
+//@ ensures ack: st.ack ==> len(fr.payload) == 0 && hasflag(fr.flags, 1)
+//@ ensures shape: !st.ack ==> len(r) % 6 == 0 && fr.flags == old(fr.flags)
+//@ ensures tbl: !st.ack ==> sone(r, cnt, 1, st.tableSize)
+//@ ensures strm: !st.ack ==> sone(r, cnt, 3, st.maxStreams)
+//@ ensures win: !st.ack ==> sone(r, cnt, 4, st.windowSize)
+//@ ensures push: !st.ack ==> ite(st.enablePush, snone(r, cnt, 2), sone(r, cnt, 2, 0))
+//@ ensures frm: !st.ack ==> ite(st.frameSize != 0, sone(r, cnt, 5, st.frameSize), snone(r, cnt, 5))
